@@ -28,3 +28,13 @@ Qed.
 (* a file of layout only is the empty file *)
 Theorem layout_only_is_empty : forall rv name s, skip_ws_comments s = EmptyString -> rules_file rv name s = FEmpty.
 Proof. intros rv name s H. unfold rules_file. now rewrite H. Qed.
+
+(* a rules file is accepted only when the top-level loop consumed it to the last byte: text that the grammar does not cover anywhere in
+   the file makes the whole file a parse error (no rule of it is evaluated) *)
+Theorem accepted_file_is_consumed_entirely : forall rv name s t, rules_file rv name s = FOk t ->
+  exists es n, exprs_loop rv n n [] (skip_ws_comments s) = POk es EmptyString.
+Proof.
+  intros rv name s t. unfold rules_file. destruct (skip_ws_comments s) as [|c r] eqn:E; [discriminate|].
+  match goal with |- context [exprs_loop rv ?n ?n [] ?u] => destruct (exprs_loop rv n n [] u) as [es rest| | | |] eqn:El; try discriminate; exists es, n end.
+  destruct rest; [exact El|discriminate].
+Qed.
